@@ -118,7 +118,7 @@ def bounds(tier, seed):
         "cells_per_wavelength": 20,
         "thresholds": {"residual_energy": THRESH_RESIDUAL, "record_difference": THRESH_RECORD},
         "seed": seed,
-        "tier_note": "quick is a covering subset (7 elements: both corner orientations of the faces, an edge, the centre, both plane extents; all thicknesses); thorough is the full product" if tier == "quick" else "full product",
+        "tier_note": "quick is a covering subset (the two opposite corners = all six faces, an edge, the centre, both plane extents, every thickness once, one seed dipole); thorough is the full product positions x polarizations x thicknesses + all plane directions x extents x thicknesses" if tier == "quick" else "full product",
     }
 
 
@@ -145,6 +145,18 @@ def _src_sig(case):
     return f"plane:{case['dir']}{'xyz'[case['axis']]}:{case['extent']}:ang={case['ang']:g}"
 
 
+def _log(case, res):
+    """Optional per-case detail log (one JSON line per case) for margin reports: set VERIF_DETAIL_LOG=<path>."""
+    import json
+    import os
+
+    path = os.environ.get("VERIF_DETAIL_LOG")
+    if path:
+        with open(path, "a") as fh:
+            fh.write(json.dumps(dict(case=case, ok=res["ok"], failures=[f["sig"] for f in res.get("failures", [])], detail=res.get("detail")), default=str) + "\n")
+    return res
+
+
 def run_case(case):
     import numpy as np
 
@@ -163,12 +175,13 @@ def run_case(case):
         detail = dict(reference_margin_convergence=d, margins=[a, b], residual={str(m): float(recs[m][0][-1] / recs[m][0].max()) for m in recs})
         if not d < 1e-2 * THRESH_RECORD:
             fails.append(dict(sig="harness:reference-not-converged-in-margin", detail=detail))
-        return dict(ok=not fails, failures=fails, detail=detail, nontrivial=int(den > 0), evals=2, outcome="refcheck")
+        return _log(case, dict(ok=not fails, failures=fails, detail=detail, nontrivial=int(den > 0), evals=2, outcome="refcheck"))
 
     net = P.pulse12_net_current()
     detail["pulse_net_current_rel"] = net
+    harness = []  # precondition failures of the scene itself; listed after the property's own failures
     if not net < 1e-6:
-        fails.append(dict(sig="harness:pulse-has-net-charge", detail=dict(net=net)))
+        harness.append(dict(sig="harness:pulse-has-net-charge", detail=dict(net=net)))
     # reference: same source, same coordinates relative to the interior origin, much larger domain
     en_r, fld_r, _, _ = _run(P.c12_spec(case, P.REF_PML, P.REF_MARGIN))
     peak_r = float(en_r.max())
@@ -176,7 +189,7 @@ def run_case(case):
     detail["reference"] = dict(peak=peak_r, residual=ref_res, argmax=int(np.argmax(en_r)))
     left = ref_res < REF_RESIDUAL
     if not left:
-        fails.append(dict(sig="harness:pulse-has-not-left-the-reference-interior", detail=detail["reference"]))
+        harness.append(dict(sig="harness:pulse-has-not-left-the-reference-interior", detail=detail["reference"]))
     src = _src_sig(case)
     nontriv, outcome = 0, {}
     detail["elements"] = []
@@ -199,8 +212,9 @@ def run_case(case):
             fails.append(dict(sig=f"record-differs-from-large-domain>=1e-4:{src}:thickness={th}", detail=el, sub=th))
         nt = peak > PEAK_FLOOR and int(np.argmax(en)) < 200 and left and den > 0
         nontriv += int(nt)
-        k = f"{case['kind']}:th={th}:residual~1e{int(math.floor(math.log10(max(res, 1e-300))))}"
+        k = f"{case['kind']}:th={th}:residual~1e{int(math.floor(math.log10(max(res, 1e-300)))) if math.isfinite(res) else 'inf'}"
         outcome[k] = outcome.get(k, 0) + 1
+    fails += harness
     detail["worst_residual"] = max(e["residual"] for e in detail["elements"])
     detail["worst_record_difference"] = max(e["record_difference"] for e in detail["elements"])
-    return dict(ok=not fails, failures=fails, detail=detail, nontrivial=nontriv, evals=1 + len(case["thick"]), outcome=outcome)
+    return _log(case, dict(ok=not fails, failures=fails, detail=detail, nontrivial=nontriv, evals=1 + len(case["thick"]), outcome=outcome))
